@@ -49,4 +49,11 @@ Render(e) ==
     [] e.k = "agg" -> "[" \o Join([i \in 1..Len(e.items) |-> Render(e.items[i])], ", ") \o "]"
     [] e.k = "rep" -> Render(e.a) \o " : " \o Render(e.n)
     [] e.k = "interval" -> "{" \o Render(e.lo) \o " " \o e.lop \o " " \o Render(e.x) \o " " \o e.hop \o " " \o Render(e.hi) \o "}"
+
+(* Dev_SplitLiteralReparenthesised (known finding): the printer splits a string literal that does not fit on the  *)
+(* line into 'a' + 'b' and writes the pieces where the literal stood, without parentheses.  Read again, the      *)
+(* pieces are a concatenation, and an operator expression that is an operand is printed in parentheses: the      *)
+(* second printing of  x IN ['a' + 'b']  or  'a' + 'b' IN y  differs from the first by those parentheses (and by *)
+(* the place of the split).  As a predicate on the two printings p1, p2 seen as trees with literals re-joined:   *)
+Dev_SplitLiteralReparenthesised(p1tree, p2tree, p1toks, p2toks) == p1tree = p2tree /\ p1toks # p2toks
 =============================================================================
